@@ -17,7 +17,7 @@ theorem parseFields_named {env : Env} {data : Bytes} {nm : String} {c : Con} {re
   rw [Con.parseFields]
   simp [h, bind, Except.bind]
 
-theorem encNat_one (le : Bool) (v : Nat) : encNat le 1 v = [UInt8.ofNat (v % 256)] := by
+theorem sym_encNat_one (le : Bool) (v : Nat) : encNat le 1 v = [UInt8.ofNat (v % 256)] := by
   cases le <;> simp [encNat, natBE, natLE]
 
 theorem splitBits_named (env : Env) (v total w : Nat) (nm tbl : String) (rest : List BitFld) (acc : Fields) :
@@ -38,7 +38,7 @@ theorem parse_st_info {env : Env} {data : Bytes} {pos : Nat} {ctx : Fields} {le 
                                ⟨some "type", 4, some ("ENUM_ST_INFO_TYPE", true)⟩]) ctx pos
       = .ok (.record [("bind", nameOr env.enumDecode "ENUM_ST_INFO_BIND" (v / 16 % 16)),
                       ("type", nameOr env.enumDecode "ENUM_ST_INFO_TYPE" (v % 16))], pos + 1, ctx) := by
-  rw [encNat_one] at hd
+  rw [sym_encNat_one] at hd
   rw [Con.parse]
   have hr : readExact data pos 1 = .ok [UInt8.ofNat (v % 256)] := readExact_ok hd rfl
   have hb : beNat [UInt8.ofNat (v % 256)] = v := by
@@ -58,7 +58,7 @@ theorem parse_st_other {env : Env} {data : Bytes} {pos : Nat} {ctx : Fields} {le
                                ⟨some "visibility", 3, some ("ENUM_ST_VISIBILITY", true)⟩]) ctx pos
       = .ok (.record [("local", nameOr env.enumDecode "ENUM_ST_LOCAL" (v / 32 % 8)),
                       ("visibility", nameOr env.enumDecode "ENUM_ST_VISIBILITY" (v % 8))], pos + 1, ctx) := by
-  rw [encNat_one] at hd
+  rw [sym_encNat_one] at hd
   rw [Con.parse]
   have hr : readExact data pos 1 = .ok [UInt8.ofNat (v % 256)] := readExact_ok hd rfl
   have hb : beNat [UInt8.ofNat (v % 256)] = v := by
